@@ -42,7 +42,8 @@ var compileClasses = []struct {
 	re    *regexp.Regexp
 }{
 	{"import-error", regexp.MustCompile(`could not import|import cycle|is not in std|no required module|cannot find package|no export data`)},
-	{"redeclared", regexp.MustCompile(`redeclared in this block|already declared`)},
+	{"redeclared", regexp.MustCompile(`redeclared in this block`)},
+	{"method-redeclared", regexp.MustCompile(`method .* already declared`)},
 	{"duplicate-method", regexp.MustCompile(`duplicate method`)},
 	{"duplicate-field", regexp.MustCompile(`duplicate field|[A-Za-z_0-9]+ redeclared$`)},
 	{"duplicate-param", regexp.MustCompile(`duplicate argument`)},
@@ -64,8 +65,12 @@ var (
 	rePos     = regexp.MustCompile(`^[^\s:]+\.go:\d+:\d+: `)
 	reQuoted  = regexp.MustCompile(`"[^"]*"`)
 	reWord    = regexp.MustCompile(`[a-z]{2,}`)
-	rePanicFn = regexp.MustCompile(`(?m)^(github\.com/cloudwego/thriftgo/[^\s(]+)\(`)
+	rePanicFn = regexp.MustCompile(`(?m)^(github\.com/cloudwego/thriftgo/\S+)\([^()]*\)\s*$`)
 )
+
+// reTypeErr: lines of `go vet` that are verdicts of the type checker (vet prints them when a package does not
+// type-check) as opposed to opinions of its analysers.
+var reTypeErr = regexp.MustCompile(`redeclared|imported and not used|undefined|cannot use|declared and not used|is not a type|duplicate |not exported|invalid |missing return|already declared|could not import`)
 
 func stripPos(msg string) string { return rePos.ReplaceAllString(msg, "") }
 
@@ -108,7 +113,7 @@ func panicSite(stderr string) string {
 	}
 	for _, m := range rePanicFn.FindAllStringSubmatch(s, -1) {
 		fn := m[1]
-		if strings.Contains(fn, "handlePanic") || strings.HasSuffix(fn, ".func1") && strings.Contains(fn, "Scope).init") {
+		if strings.Contains(fn, "handlePanic") || strings.Contains(fn, "Scope).init.func") || strings.Contains(fn, "workerMain") {
 			continue
 		}
 		fn = strings.TrimPrefix(fn, "github.com/cloudwego/thriftgo/")
@@ -139,6 +144,7 @@ func judge(exit int, stderr string, parseErrs, compile []string) finding {
 			m = m[i+4:]
 		}
 		m = regexp.MustCompile(`^\d+:\d+: `).ReplaceAllString(strings.TrimPrefix(m, " "), "")
+		m = regexp.MustCompile(`\(and \d+ more errors?\)`).ReplaceAllString(m, "")
 		return finding{Kind: "parse", Class: strings.TrimPrefix(otherClass(m), "other:"), Detail: parseErrs[0]}
 	}
 	if c, d := classifyCompile(compile); c != "" {
@@ -308,7 +314,15 @@ func features(p *Program) []string {
 }
 
 // stableKey assembles the key of a finding on a minimised subject.
-func stableKey(f finding, s *subject, named bool) string {
+func stableKey(f finding, s *subject, kept []string) string {
+	named, pkgnamed := false, false
+	for _, k := range kept {
+		if strings.HasPrefix(k, "file ") || strings.HasPrefix(k, "namespace ") {
+			pkgnamed = true
+		} else {
+			named = true
+		}
+	}
 	k := f.head()
 	if s == nil {
 		return k
@@ -321,11 +335,20 @@ func stableKey(f finding, s *subject, named bool) string {
 		sort.Strings(o)
 		k += "|opt=" + strings.Join(o, ",")
 	}
-	if ft := features(s.Prog); len(ft) > 0 {
+	ft := features(s.Prog)
+	if len(ft) > 0 {
 		k += "|feat=" + strings.Join(ft, ",")
+	}
+	for _, x := range ft {
+		if x == "short-package" || x == "shared-go-namespace" {
+			pkgnamed = false // the package name the failure depends on is what the feature says
+		}
 	}
 	if named {
 		k += "|named"
+	}
+	if pkgnamed {
+		k += "|pkgnamed"
 	}
 	return k
 }
